@@ -28,6 +28,7 @@ DEFAULT_PROFILE = {
     "p_after_two": 0.15,
     "p_named_delay": 0.2,
     "p_invoke": 0.0,
+    "p_hostile_names": 0.08,
     "p_shared_invoke_id": 0.0,
     "svc_kinds": ("sync",),
     "p_on_done": 0.7,
@@ -124,11 +125,30 @@ class MachineGen:
         self.events = [f"E{i+1}" for i in range(profile["events"])]
         self.raise_events = [f"R{i+1}" for i in range(profile.get("raise_events", 2))]
         self.info = {"after": [], "invoke": [], "hist": [], "finals": [], "trans": {}}
+        self.all_keys = []
 
     # -- tree ---------------------------------------------------------------
-    def key(self):
+    def key(self, parent=None):
+        """Next state key.  With `p_hostile_names` some keys are string-prefixes / string-suffixes of a sibling's key
+        (`S3` / `S3x`, `S3` / `xS3`) or repeat a key used under another parent (`idle` in every region): ids are dotted
+        paths, and code that compares them as plain text (startswith / endswith without the dot) only fails on such names."""
         self.nkeys += 1
-        return f"S{self.nkeys}"
+        k = f"S{self.nkeys}"
+        p = self.p.get("p_hostile_names") or 0.0
+        if parent is not None and p and self.rng.random() < p:
+            sib = [c.key for c in parent.children]
+            r = self.rng.random()
+            cand = None
+            if sib and r < 0.4:
+                cand = self.rng.choice(sib) + "x"
+            elif sib and r < 0.8:
+                cand = "x" + self.rng.choice(sib)
+            elif self.all_keys:
+                cand = self.rng.choice(self.all_keys)
+            if cand and cand not in sib and cand != self.mid:
+                k = cand
+        self.all_keys.append(k)
+        return k
 
     def tree(self):
         rng, p = self.rng, self.p
@@ -146,12 +166,12 @@ class MachineGen:
             for _ in range(nreg):
                 budget[0] -= 1
                 kind = "compound" if (node.depth + 1 < p["max_depth"] and rng.random() < 0.85) else "atomic"
-                c = GNode(self.key(), kind, node)
+                c = GNode(self.key(node), kind, node)
                 node.children.append(c)
                 if kind == "compound":
                     self._fill(c, budget)
             if p["hist_parallel"] and rng.random() < 0.6:
-                h = GNode(self.key(), "history", node)
+                h = GNode(self.key(node), "history", node)
                 h.hist = rng.choice(("shallow", "deep"))
                 node.children.append(h)
             return
@@ -171,12 +191,12 @@ class MachineGen:
                     node.depth > 0 or p.get("root_final", True)):
                 kind = "final"
                 have_final = True
-            c = GNode(self.key(), kind, node)
+            c = GNode(self.key(node), kind, node)
             node.children.append(c)
             if kind in ("compound", "parallel"):
                 self._fill(c, budget)
         if node.depth > 0 and rng.random() < p["p_history"]:
-            h = GNode(self.key(), "history", node)
+            h = GNode(self.key(node), "history", node)
             h.hist = rng.choice(("shallow", "deep"))
             node.children.append(h)
 
@@ -246,7 +266,8 @@ class MachineGen:
         if k == "statein" and nodes:
             tgt = rng.choice([n for n in nodes if n.kind != "history"])
             sp = rng.random()
-            ident = "#" + tgt.id if sp < 0.34 else (tgt.id if sp < 0.67 else ".".join(tgt.id.split(".")[-2:]))
+            ident = ("#" + tgt.id if sp < 0.3 else tgt.id if sp < 0.55 else ".".join(tgt.id.split(".")[-2:]) if sp < 0.8
+                     else tgt.id.split(".")[-1])
             form = rng.random()
             if form < 0.5:
                 return {"type": "stateIn", "params": {"state": ident}}
